@@ -216,10 +216,10 @@ CHECKS["C19"] = dict(
     claim=("The E1 view-state search is run from re-based roots (array_ref over explicit index extensions with firsts in {-1,0,2} per dimension, D=1..4) with reindexed/blocked/stenciled added to the alphabet; every "
            "index-valued argument is expressed in the view's own reported index space and the model is the positionally identical zero-based twin. At every state: element addresses position-wise through all access "
            "paths, begin/end and elements() laws, +view (values and extensions), equality of a copy, and assignment into the same view of a twin root (whole-buffer comparison)."),
-    jobs=lambda tier: ranks_jobs("basemc", "san-nd", tier, shards_thorough=2),
+    jobs=lambda tier: ranks_jobs("basemc", "san-nd", tier, shards_thorough=2) + ranks_jobs("basemc", "san", tier, ranks=(1, 2, 3), extra_args=["--depth=%d" % (1 if tier == "quick" else 2)], shards_thorough=1),
     rule=("E1 breadth-first search (depth 2 quick / 3 thorough) with the model adopting the reported first index of every non-empty result dimension (the index base of a RESULT is not documented) while sizes, "
-          "strides and element identity are checked position-wise; assertions are disabled in this build (-DNDEBUG + ASan/UBSan) so that the reference model, not the library's own asserts, is the oracle; violating "
-          "states are not expanded. distinct_nontrivial = non-empty states with >= 2 elements."),
+          "strides and element identity are checked position-wise; the primary build has assertions disabled (-DNDEBUG + ASan/UBSan) so that the reference model, not the library's own asserts, is the oracle; "
+          "the same search (one level shallower) and the reextent grid are repeated in the assertion-enabled build, where any library assertion on these valid programs is a violation; violating states are not expanded. distinct_nontrivial = non-empty states with >= 2 elements."),
     assumptions=["reference model engine/view_model.hpp with per-dimension index base", "member_cast/scale on re-based layouts asserts offset==0 (TODO in the library): not generated", "g++ 12 -O0 -DNDEBUG ASan+UBSan"],
 )
 
